@@ -378,11 +378,11 @@ register("C04", streams=[Q("filter", pred="has", apis=["find_matches"], src=Fals
          observables=["fncalls", "results_exc"],
          rule="has/has_not/has_all/has_any trees (depth<=3) over relative paths incl. wildcards, recursion, parent steps, nested filters; six operators; constants of every JSON kind; conversion chains of length 0-3 that raise on part of the data; compared: results, conversion call order, exception chain")
 register("C05", streams=[Q("all", apis=ALL_APIS, src=None, share=3, untraced=0.4), Q("parent", apis=ALL_APIS, src=True, share=1, untraced=0.4)],
-         observables=["results_exc"], oracles=[oracles.deep_oracle, oracles.big_iteration_oracle_for({"kind": "find", "n": 260000})],
+         observables=["results_exc"], oracles=[oracles.deep_oracle, oracles.big_iteration_oracle_for({"kind": "find", "n": 260000}), oracles.projection_oracle],
          rule="all four read functions on the same (path, source) space, source = document or k-th match of another path; default in {none, constant incl. falsy and {}, callable}; must_match in {True, False}")
 register("C07", generated=["Shared"], streams=[Q("all", apis=["find_matches", "find"], src=None, nexts="partial", untraced=0.5, share=4),
                          Q("filter", pred="below", apis=["find_matches", "find"], src=None, nexts="partial", untraced=0.5, share=1)],
-         observables=["calls", "results_exc", "segments"], oracles=[oracles.interleave_oracle, oracles.thread_oracle, oracles.reiter_oracle, oracles.long_iteration_oracle],
+         observables=["calls", "results_exc", "segments"], oracles=[oracles.interleave_oracle, oracles.thread_oracle, oracles.reiter_oracle, oracles.long_iteration_oracle, oracles.fatigue_oracle],
          rule="iterators advanced k times (k below, at, beyond the number of results; extra next() calls after exhaustion); per-call segments of results and user-predicate calls compared with the machine model; interleavings of 2-5 iterators sharing path objects; real threads as support")
 register("C11", streams=[Q("nopar", apis=["find_matches"], src=None)],
          observables=["full_results"], oracles=[oracles.match_truth_oracle, oracles.match_eq_oracle],
